@@ -169,16 +169,8 @@ pub mod filetime {
                 (None, None) => Ok(()),
             },
             Some(ctx) => {
-                let s = p
-                    .to_str()
-                    .ok_or_else(|| io::Error::from_raw_os_error(libc::EINVAL))?;
-                if s.as_bytes().contains(&0) {
-                    return Err(io::Error::new(
-                        io::ErrorKind::InvalidInput,
-                        "file name contained an unexpected NUL byte",
-                    ));
-                }
-                let mut req = Req::path(s);
+                let s = crate::shim_fs::enc_path(p)?;
+                let mut req = Req::path(&s);
                 req.atime = atime.map(|t| t.to_ns()).unwrap_or(UTIME_OMIT);
                 req.mtime = mtime.map(|t| t.to_ns()).unwrap_or(UTIME_OMIT);
                 ctx.sim
